@@ -32,7 +32,8 @@ def run(ctx):
     m = seq.run(ctx, exe)
     cov = seq.coverage_from(m, RULE, nontrivial_classes=NONTRIVIAL, min_classes=2)
     c = m['counters']
-    if not m['deadline_hit']:
+    # (the guards describe a clean run: with failures or sanitizer aborts the counters are cut short)
+    if not m['deadline_hit'] and not m['failures'] and not m['crashes']:
         for k, n in (('accepted', 1000), ('rejected', 1000), ('canonical_reparsed', 1000), ('bad_port_rejected', 100),
                      ('written_port_compared', 100), ('default_port_compared', 100), ('host_lowered', 50)):
             if c.get(k, 0) < n:
